@@ -94,7 +94,7 @@ class G:
         if self.maybe(0.15):
             comps.append('*')
         self.r.shuffle(comps)
-        sep = self.pick([', ', ',', ' , '])
+        sep = self.pick([', ', ', ', ' , '])
         body = sep.join(comps)
         return ('{{' + body + '}}') if self.maybe(0.3) else ('{' + body + '}')
 
